@@ -29,7 +29,7 @@ class Posterior:
     self.sigma2 = float((self.resid ** 2).sum()) / (n - 2)
     syy = float(((y_pre - self.ym) ** 2).sum())
     # precondition of every numerical clause: positive residual variance, well above rounding noise
-    if not (self.sigma2 * (n - 2) > 1e-10 * max(syy, 1e-300)) or not (self.sxx > 1e-10 * max(1.0, self.xm ** 2) * n):
+    if not (self.sigma2 * (n - 2) > 1e-10 * max(syy, 1e-300)) or not (self.sxx > 1e-10 * max(self.xm ** 2, 1e-300) * n):
       self.degenerate = True
     self.effect = y_an - self.a - self.b * x_an            # pointwise effect on analysed days
     self.loc = np.cumsum(self.effect)
